@@ -1,5 +1,6 @@
 import BreezyVerif.Common
 import BreezyVerif.Model.C04
+import BreezyVerif.Model.C04Fault
 import BreezyVerif.Driver.C04Proto
 /-
 C04 driver.
@@ -11,6 +12,13 @@ names / viewNames / viewAtLoad = comma separated pack numbers (`-` = none)
 files / torn = comma separated `<d><stem>.<ext>` with d ∈ u p i o (`-` = none)
 counts = `name:count` comma separated (all packs after allocate, new0 included), in the
          order Python's sort processes equal counts
+
+  cfault <…the arguments of commit…> <ord> <pos> <B|A> <io|transport|interrupt|read>
+  pfault <…the arguments of pack…>   <ord> <pos> <B|A> <io|transport|interrupt|read>
+         the same operation with a fault at operation <pos> of the fault-free list (B = the call
+         is not performed, A = the exception arrives after the call completed); ord = the files
+         of obsolete_packs/ in the order list_dir returned them; the reply is prefixed with
+         `R ` (the exception leaves the operation) or `C ` (the operation completes)
 
 reply: `<op>;<op>;… <state>/<state>/…` — the operation list and the directory
 state after every prefix (including the empty one); state =
@@ -28,6 +36,16 @@ def showPlan : Plan → String
   | .error => "error"
   | .combine s => s!"combine:{showNatsRaw s}"
 
+def parseFault (pos mode kind : String) : Option Fault := do
+  let p ← pos.toNat?
+  let a ← (if mode == "A" then some true else if mode == "B" then some false else none)
+  let k ← (if kind == "io" then some FKind.io else if kind == "transport" then some FKind.transport
+    else if kind == "interrupt" then some FKind.interrupt else if kind == "read" then some FKind.read else none)
+  pure ⟨p, a, k⟩
+
+def showFault (raises : Bool) (d : Disk) (ex : List Op) : String :=
+  s!"{if raises then "R" else "C"} {showRun d ex}"
+
 def handle : List String → String
   | ["commit", chk, names, files, torn, vn, va, counts, fresh] =>
     match parseBool chk, parseNatList names, parseFiles files, parseFiles torn, parseNatList vn, parseNatList va,
@@ -44,6 +62,26 @@ def handle : List String → String
       let d : Disk := ⟨names, files, torn, false⟩
       showRun d (packOps chk d ⟨vn, va⟩ hint optimal clean t1 n1)
     | _, _, _, _, _, _, _, _, _, _ => "bad-op"
+  | ["cfault", chk, names, files, torn, vn, va, counts, fresh, ord, pos, mode, kind] =>
+    match parseBool chk, parseNatList names, parseFiles files, parseFiles torn, parseNatList vn, parseNatList va,
+          parseCounts counts, parseNatList fresh, parseFiles ord, parseFault pos mode kind with
+    | some chk, some names, some files, some torn, some vn, some va, some counts, some [t0, n0, t1, n1],
+      some ord, some f =>
+      let d : Disk := ⟨names, files, torn, false⟩
+      showFault (commitRaisesWith chk d ⟨vn, va⟩ (planAutopack counts) t0 n0 t1 n1 ord f) d
+        (commitFault chk d ⟨vn, va⟩ counts t0 n0 t1 n1 ord f)
+    | _, _, _, _, _, _, _, _, _, _ => "bad-op"
+  | ["pfault", chk, names, files, torn, vn, va, hint, optimal, clean, fresh, ord, pos, mode, kind] =>
+    match parseBool chk, parseNatList names, parseFiles files, parseFiles torn, parseNatList vn, parseNatList va,
+          (if hint == "~" then some none else (parseNatList hint).map some),
+          parseBool optimal, parseBool clean, parseNatList fresh, parseFiles ord, parseFault pos mode kind with
+    | some chk, some names, some files, some torn, some vn, some va, some hint, some optimal, some clean,
+      some [t1, n1], some ord, some f =>
+      let d : Disk := ⟨names, files, torn, false⟩
+      let v : View := ⟨vn, va⟩
+      showFault (packRaisesSel chk d v (hintSel v hint) optimal clean t1 n1 ord f) d
+        (packFault chk d v hint optimal clean t1 n1 ord f)
+    | _, _, _, _, _, _, _, _, _, _, _, _ => "bad-op"
   | ["plan", counts] =>
     match parseCounts counts with
     | some c => showPlan (planAutopack c)
